@@ -10,7 +10,9 @@ import scipy.linalg
 from symnp.array import (HANDLERS, NP_OVERRIDES, SCIPY_LINALG_OVERRIDES, SymArray, _EighResult, _map, _sym_sqrt, _wrap, as0d,
                          handles, has_sym, h_eigvals, h_norm, h_rank, h_svd, kernel, lifted, sarr, symmax)
 from symnp.core import And, Not, Or, Sym, SymBool, SymError, cur, lift
-from symnp.harness import Obligation, eq
+from symnp.harness import Obligation, eq, jsonable
+from props.common import Task
+from toqito.matrix_props import sk_operator_norm
 from props.c13 import density_exact, k_eigvalsh, k_nuc, psqrt, tr
 from toqito.state_ops import schmidt_decomposition
 from toqito.state_props import (concurrence, entanglement_of_formation, is_product, l1_norm_coherence, log_negativity, negativity,
@@ -869,6 +871,173 @@ def ob_concurrence(kind):
 
 
 # =====================================================================================================================
+# ---- S(k) operator norm: the returned bounds against the values attained on explicit families of Schmidt-rank-<=k vectors -----
+def _unit(v):
+    v = np.asarray(v, dtype=complex)
+    return v / np.linalg.norm(v)
+
+
+def sk_instances(T):
+    """(name, X, dims, k, complete): `complete` = the family below contains a maximiser (rank-one X), so an unmet lower bound
+    is a violation and not merely uncertified"""
+    psi23 = np.kron([1, 0], [1, 0, 0]) * 0.8 + np.kron([0, 1], [0, 1, 0]) * 0.6
+    psi33 = (2 * np.kron([1, 0, 0], [1, 0, 0]) + 2j * np.kron([0, 1, 0], [0, 1, 0]) + np.kron([0, 0, 1], [0, 0, 1])) / 3
+    me3 = sum(np.kron(np.eye(3)[i], np.eye(3)[i]) for i in range(3)) / np.sqrt(3)
+    P = lambda v: np.outer(v, np.conj(v))      # noqa: E731
+    asym = (np.eye(9) - sum(np.kron(np.outer(np.eye(3)[i], np.eye(3)[j]), np.outer(np.eye(3)[j], np.eye(3)[i])) for i in range(3) for j in range(3))) / 2
+    rng = np.random.default_rng(3)
+    A = (rng.integers(-2, 3, size=(6, 6)) + 1j * rng.integers(-2, 3, size=(6, 6))) / 4
+    G4 = (rng.integers(-2, 3, size=(4, 4)) + 1j * rng.integers(-2, 3, size=(4, 4))) / 4
+    H9 = rng.integers(-2, 3, size=(9, 9)) / 4
+    out = [
+        ("2.5 * rank-one projector, Schmidt coefficients (0.8, 0.6), dims (2,3)", 2.5 * P(psi23), (2, 3), 1, True),
+        ("0.5 * rank-one projector, Schmidt coefficients (2/3, 2/3, 1/3) with a phase, dims (3,3)", 0.5 * P(psi33), (3, 3), 1, True),
+        ("0.5 * rank-one projector, Schmidt coefficients (2/3, 2/3, 1/3) with a phase, dims (3,3)", 0.5 * P(psi33), (3, 3), 2, True),
+        ("0.9 * maximally entangled projector + 0.1 * I/9, dims (3,3)", 0.9 * P(me3) + 0.1 * np.eye(9) / 9, (3, 3), 2, False),
+        ("0.9 * maximally entangled projector + 0.1 * I/9, dims (3,3)", 0.9 * P(me3) + 0.1 * np.eye(9) / 9, (3, 3), 1, False),
+        ("antisymmetric projector, dims (3,3)", asym, (3, 3), 1, False),
+        ("generic complex PSD (A A^dagger), dims (2,3)", A @ A.conj().T, (2, 3), 1, False),
+        ("generic complex PSD (G G^dagger), dims (2,2)", 3 * G4 @ G4.conj().T, (2, 2), 1, False),
+        ("real symmetric indefinite, dims (3,3)", (H9 + H9.T) / 2, (3, 3), 2, False),
+    ]
+    if T:
+        out += [("antisymmetric projector, dims (3,3)", asym, (3, 3), 2, False),
+                ("generic complex PSD (A A^dagger), dims (3,2)", A @ A.conj().T, (3, 2), 1, False),
+                ("real symmetric indefinite, dims (3,3)", (H9 + H9.T) / 2, (3, 3), 1, False),
+                ("7 * rank-one projector, Schmidt coefficients (0.8, 0.6), dims (3,2) via swap", 7 * P(np.kron([1, 0, 0], [1, 0]) * 0.6 + np.kron([0, 0, 1], [0, 1]) * 0.8), (3, 2), 1, True)]
+    return out
+
+
+class SkNormBracketTask(Task):
+    """(lower, upper) = sk_operator_norm(X, k, dims) from the real code.  For explicit product frames {a_i (x) b_i} (Schmidt
+    bases of the leading eigenvectors of X, and the computational basis) every vector sum_{i in I} c_i a_i (x) b_i with |I| = k
+    has Schmidt rank <= k, and its value <v|X|v>/<v|v> is the Rayleigh quotient of the k x k compression M of X.
+    z3 (QF_NRA, c in C^k symbolic) decides
+      upper:  no c with  c^dagger M c > (upper + tol) c^dagger c        (unsat required; a model is a Schmidt-rank-<=k vector above
+              the returned upper bound, replayed numerically against the real return value)
+      lower:  some c != 0 with c^dagger M c >= (lower - tol) c^dagger c  (a model certifies the lower bound by a witness vector)
+    and lower <= upper.  Per instance X; for all c.  The general supremum over ALL Schmidt-rank-k vectors is outside reach
+    (NP-hard; nlsat does not finish on the unrestricted quartic)."""
+    engine = "E1-symnp/z3 (QF_NRA Rayleigh-quotient queries against the real return value)"
+    weight = 60
+
+    def __init__(self, name, X, dims, k, complete, scale_form="list"):
+        super().__init__("sk_operator_norm.bounds_bracket_values_on_schmidt_rank_k_families", {"instance": name, "dims": list(dims), "k": k})
+        self.X, self.dims, self.k, self.complete = np.asarray(X, dtype=complex), tuple(dims), k, complete
+
+    def _frames(self):
+        dA, dB = self.dims
+        X = self.X
+        H = (X + X.conj().T) / 2
+        w, V = np.linalg.eigh(H)
+        frames = [("computational basis", np.eye(dA), np.eye(dB))]
+        for idx in ([-1, -2] if len(w) > 1 else [-1]):
+            Mv = V[:, idx].reshape(dA, dB)
+            U, sv, Wh = np.linalg.svd(Mv)
+            frames.append((f"Schmidt bases of eigenvector #{len(w) + idx}", U, Wh.T))
+        # frames found by the harness' own local search (power iteration on X + shift with truncation to the k leading Schmidt
+        # terms).  Any frame is sound - it only has to be a pair of orthonormal bases; a better one makes both queries sharper.
+        shift = max(0.0, -float(w[0])) + 1e-3
+        rng = np.random.default_rng(11)
+        best = []
+        for start in range(6):
+            v = V[:, -1] if start == 0 else _unit(rng.normal(size=dA * dB) + 1j * rng.normal(size=dA * dB))
+            for _ in range(200):
+                U, sv, Wh = np.linalg.svd((H @ v + shift * v).reshape(dA, dB))
+                sv[self.k:] = 0
+                v = _unit(((U[:, :len(sv)] * sv) @ Wh[:len(sv), :]).reshape(-1))
+            val = float(np.real(np.vdot(v, H @ v)))
+            U, sv, Wh = np.linalg.svd(v.reshape(dA, dB))
+            best.append((val, U, Wh.T))
+        best.sort(key=lambda t: -t[0])
+        for j, (val, U, W) in enumerate(best[:2]):
+            frames.append((f"Schmidt bases of the local maximiser #{j} of the harness' truncated power iteration", U, W))
+        return frames
+
+    def _run(self, rec, seed):
+        import z3
+        from fractions import Fraction
+        from sdpcap.embed import prove
+
+        def rv(x):      # the float rounded to a multiple of 2^-40 (error 1e-12, far inside tol): keeps nlsat's rationals small
+            return z3.RealVal(str(Fraction(round(float(x) * 2 ** 40), 2 ** 40)))
+        dA, dB = self.dims
+        k, X = self.k, self.X
+        lo, hi = sk_operator_norm(X.copy(), k, list(self.dims))
+        lo, hi = float(np.real(lo)), float(np.real(hi))
+        rec["bounds_returned"] = [lo, hi]
+        tol = 1e-4 * max(1.0, abs(hi))      # accuracy of the conic solver behind the SDP bounds (observed 1.3e-6 relative), not of the glue
+        m = min(dA, dB)
+        queries = 0
+        certified = False
+        if lo > hi + tol:
+            rec["status"] = "violation"
+            rec["violation"] = {"source": "the real return value: lower bound above upper bound", "inputs": jsonable(self.cfg), "actual": [lo, hi]}
+            return
+        cs = [(z3.Real(f"cr{i}"), z3.Real(f"ci{i}")) for i in range(k)]
+        nrm = z3.Sum([a * a + b * b for a, b in cs])
+        for fname, UA, UB in self._frames():
+            for I in itertools.combinations(range(m), k):
+                vecs = [np.kron(UA[:, i], UB[:, i]) for i in I]
+                M = np.array([[np.vdot(vecs[p], X @ vecs[q]) for q in range(k)] for p in range(k)])
+                M = (M + M.conj().T) / 2
+                # c^dagger M c for c_p = cr_p + i ci_p
+                quad = []
+                for p in range(k):
+                    for q in range(k):
+                        (a, b), (c, d) = cs[p], cs[q]
+                        re, im = rv(M[p, q].real), rv(M[p, q].imag)
+                        # conj(c_p) M_pq c_q, real part: re*(a c + b d) - im*(a d - b c)
+                        quad.append(re * (a * c + b * d) - im * (a * d - b * c))
+                val = z3.Sum(quad)
+                r, model = prove(z3.And(nrm <= 1, val > rv(hi + tol) * nrm), timeout_ms=60000)
+                queries += 1
+                if r == "sat":
+                    cv = np.array([float(model.eval(a, model_completion=True).as_fraction()) + 1j * float(model.eval(b, model_completion=True).as_fraction()) for a, b in cs])
+                    v = sum(c * vec for c, vec in zip(cv, vecs))
+                    attained = float(np.real(np.vdot(v, X @ v) / np.vdot(v, v)))
+                    rk = int(np.linalg.matrix_rank(v.reshape(dA, dB), tol=1e-9))
+                    rec["queries"] = queries
+                    if attained > hi + tol / 2 and rk <= k and abs(np.vdot(v, v)) > 1e-12:        # replay: plain numpy on the solver's vector against the real return value
+                        rec["status"] = "violation"
+                        rec["violation"] = {"source": "solver model replayed: a vector of Schmidt rank <= k attains a value above the returned upper bound",
+                                            "inputs": jsonable(self.cfg), "frame": fname, "support": list(I), "vector": jsonable(v),
+                                            "schmidt_rank": rk, "actual": {"returned_bounds": [lo, hi], "value_attained": attained}}
+                    else:
+                        rec["notes"].append("solver model did not reproduce numerically")
+                    return
+                if r != "unsat":
+                    rec["notes"].append(f"upper query {r} ({fname}, {I})")
+                    rec["queries"] = queries
+                    return
+                if not certified:
+                    r2, _ = prove(z3.And(nrm <= 1, nrm > 0, val >= rv(lo - tol) * nrm), timeout_ms=60000)
+                    queries += 1
+                    certified = r2 == "sat"
+        # negative control / reachability: an upper bound just below an attained value must be refuted
+        fname, UA, UB = self._frames()[1]
+        vecs = [np.kron(UA[:, i], UB[:, i]) for i in range(k)]
+        top = max(float(np.real(np.vdot(v, X @ v))) for v in vecs)
+        a0, b0 = cs[0]
+        r3, _ = prove(z3.And(a0 == 1, b0 == 0, *[z3.And(a == 0, b == 0) for a, b in cs[1:]], rv(float(np.real(np.vdot(vecs[0], X @ vecs[0])))) > rv(top + 1)))
+        rec["neg_control"], rec["reachable"] = r3 == "unsat", True
+        rec["queries"] = queries + 1
+        if certified:
+            rec["status"] = "discharged"
+        elif self.complete:
+            rec["status"] = "violation"
+            rec["violation"] = {"source": "rank-one operator: the family contains a maximiser, yet no vector in it reaches the returned lower bound",
+                                "inputs": jsonable(self.cfg), "actual": {"returned_bounds": [lo, hi]}}
+        else:
+            rec["notes"].append(f"upper bound holds on every family; the lower bound {lo:.6f} is not certified by a witness from the families")
+
+    def replay(self, rp):
+        lo, hi = sk_operator_norm(self.X.copy(), self.k, list(self.dims))
+        att = rp["violation"].get("actual", {}).get("value_attained")
+        print({"returned_bounds": [float(np.real(lo)), float(np.real(hi))], "value_attained_by_recorded_vector": att})
+        return not (att is not None and att > float(np.real(hi)) + 1e-6) and float(np.real(lo)) <= float(np.real(hi)) + 1e-6
+
+
 def obligations(tier):
     T = tier == "thorough"
     obs = []
@@ -931,6 +1100,9 @@ def obligations(tier):
                     if shape == "1d" and dform != "list":
                         continue
                     obs.append(ob_sk_norm(d1, d2, k, dform, shape))
+
+    for name, X, dims_, k, complete in sk_instances(T):
+        obs.append(SkNormBracketTask(name, X, dims_, k, complete))
 
     # product test
     for (d1, d2) in dims_q + ([(2, 4), (4, 2)] if T else []):
